@@ -270,7 +270,8 @@ fn run(case: &Case11) -> Option<(String, Value)> {
                 let flags = if case.doc.ice == 2 && matches!(ext, "ans" | "asc" | "bin" | "adf" | "idf") { 1 } else { 0 };
                 let mut v = content.clone();
                 // files in the wild sometimes lack the EOF character in front of the record: then no content byte may be cut
-                let eof = !(case.mode == "foreign" && sd.title.len() % 4 == 1);
+                // (an EOF-less trailer right after content that itself ends in 0x1A is ambiguous by construction: not generated)
+                let eof = !(case.mode == "foreign" && sd.title.len() % 4 == 1) || content.last() == Some(&0x1A);
                 v.extend(ref_write(&sd, dt, ft, w, h, flags, font, if case.mode == "foreign" { 0 } else { b' ' }, eof));
                 v
             };
@@ -417,12 +418,22 @@ impl C11 {
         doc::fill_cells(&mut rng, &mut d.layers[0], Chars::Printable, if ice { Colors::Ice } else { Colors::Dos }, 0, 1, 90);
         d.layers[0].cells.retain(|c| !matches!(c.ch, 0x40 | 0x7C | 0x60));
         d.layers[0].cells.push(doc::CellD { x: 0, y: h - 1, ch: 0x58, fg: 7, bg: 0, attr: 0, fp: 0 });
-        d.layers[0].cells.push(doc::CellD { x: w - 1, y: h - 1, ch: 0x59, fg: 7, bg: 0, attr: 0, fp: 0 });
+        if mode != "meta" && matches!(ext, "bin" | "xb" | "adf" | "idf" | "tnd") && rng.chance(1, 3) {
+            // the content itself ends in EOF bytes (character 0x1A with attribute 0x1A): exactly one 0x1A belongs to the trailer
+            if w >= 2 && rng.bool() {
+                d.layers[0].cells.push(doc::CellD { x: w - 2, y: h - 1, ch: 0x1A, fg: 10, bg: 1, attr: 0, fp: 0 });
+            }
+            d.layers[0].cells.push(doc::CellD { x: w - 1, y: h - 1, ch: 0x1A, fg: 10, bg: 1, attr: 0, fp: 0 });
+        } else {
+            d.layers[0].cells.push(doc::CellD { x: w - 1, y: h - 1, ch: 0x59, fg: 7, bg: 0, attr: 0, fp: 0 });
+        }
         d.sauce = Some(gen_sauce(&mut rng));
         let mut content_tail = vec![];
         let mut raw_content = None;
         if mode != "meta" && matches!(ext, "ans" | "asc" | "pcb" | "avt") {
-            match rng.usize(8) {
+            match rng.usize(10) {
+                8 => content_tail = vec![0x1A],
+                9 => content_tail = vec![b'z', 0x1A, 0x1A],
                 0 => content_tail = b"SAUCE00".to_vec(),
                 1 => content_tail = b"COMNT".to_vec(),
                 2 => content_tail = b"\x1aSAUCE".to_vec(),
@@ -480,7 +491,7 @@ impl Prop for C11 {
         "C11"
     }
     fn rule(&self) -> &'static str {
-        "for each of the ten writers that append SAUCE (ans asc avt pcb bin xb tnd adf idf icy): (meta) a document with generated title/author/group of every length 0..=35/20/20 over CP437 incl. blanks, 0..=255 comment lines, flag combinations and widths 1..=1000 (format limits) is saved with SAUCE; a reference SAUCE reader written from the Revision-5 layout parses the trailer (writer side) and Buffer::get_sauce() after loading is compared with the per-variant projection (reader side: texts, comments, width, ice flag, spacing/aspect flags, font name); (cut) content vs content+trailer with the loader's default width/ice/font: SauceData::extract must report sauce_header_len == trailer length and both loads must give the same size and cells; content variants ending in SAUCE00 / COMNT look-alikes, empty, 1/127/128/129/133/192/193 bytes; (foreign) the same with a trailer written by the harness's reference writer (NUL padding). distinct_nontrivial = distinct (writer, mode, title/author length, comment count, width, content class) fingerprints"
+        "for each of the ten writers that append SAUCE (ans asc avt pcb bin xb tnd adf idf icy): (meta) a document with generated title/author/group of every length 0..=35/20/20 over CP437 incl. blanks, 0..=255 comment lines, flag combinations and widths 1..=1000 (format limits) is saved with SAUCE; a reference SAUCE reader written from the Revision-5 layout parses the trailer (writer side) and Buffer::get_sauce() after loading is compared with the per-variant projection (reader side: texts, comments, width, ice flag, spacing/aspect flags, font name); (cut) content vs content+trailer with the loader's default width/ice/font: SauceData::extract must report sauce_header_len == trailer length and both loads must give the same size and cells; content variants ending in SAUCE00 / COMNT look-alikes or in one or more 0x1A bytes of their own (text and binary formats), empty, 1/127/128/129/133/192/193 bytes; (foreign) the same with a trailer written by the harness's reference writer (NUL padding). distinct_nontrivial = distinct (writer, mode, title/author length, comment count, width, content class) fingerprints"
     }
     fn meta(&self, ctx: &Ctx) -> Value {
         json!({"floor_evaluations": 2000, "floor_distinct": ctx.tier.pick(1500u64, 20000u64),
